@@ -3,7 +3,7 @@ record which checks report a VIOLATION (and whether with a concrete failing inpu
 seeded/MATRIX.md and seeded/matrix.json, and appends the minimised failing inputs to harness/corpus/<Cxx>.jsonl (which every
 check runs first).  /repo must be clean; it is left clean.
 
-usage: seed_matrix.py [--root seeded|benign] [--only C01-m1,...] [--props C01,C02,...] [--jobs 4] [--shard i/n] [--merge]
+usage: seed_matrix.py [--root seeded|benign] [--only C01-m1,...] [--props C01,C02,...] [--own] [--jobs 4] [--shard i/n] [--merge]
 --shard i/n: work on every n-th change starting at i, in a worktree of /repo and a copy of the Lean project of its own under
 /tmp (created, used through VERIF_REPO / VERIF_LEAN_DIR, removed afterwards), writing <root>/matrix.<i>.json; several shards can run side
 by side and /repo itself is not touched.  --merge: combine the shard files into matrix.json and write MATRIX.md.
@@ -82,10 +82,14 @@ def main():
             print(sid, "patch does not apply", a.stderr)
             continue
         row = {}
+        if "--own" in args:
+            mp0 = os.path.join(V, root, "matrix.json")
+            row = dict((json.load(open(mp0)) if os.path.exists(mp0) else {}).get(sid, {}))
         try:
             # builds are serialised by the checks' own lock; the harness parts run in parallel
             with cf.ThreadPoolExecutor(jobs) as ex:
-                for prop, rc, replay, nofail, tail in ex.map(run_check, props):
+                # --own: only the check of the property the change was written against (the other cells keep what an earlier run put there)
+                for prop, rc, replay, nofail, tail in ex.map(run_check, [sid[:3]] if "--own" in args else props):
                     row[prop] = {"exit": rc, "violation": replay is not None, "concrete_input": replay is not None and not nofail}
                     if rc not in (0, 1):
                         row[prop]["tail"] = tail
